@@ -210,6 +210,16 @@ func YAMLUnmarshalerWithValidator(validator protoyaml.Validator) YAMLUnmarshaler
 	}
 }
 
+// YAMLUnmarshalerWithDiscardUnknown says to discard unknown fields instead of returning an error.
+//
+// This is needed when a message is unmarshaled without a Resolver that knows its extensions,
+// i.e. for the first pass over an Image that bootstraps the Resolver for the second pass.
+func YAMLUnmarshalerWithDiscardUnknown() YAMLUnmarshalerOption {
+	return func(yamlUnmarshaler *yamlUnmarshaler) {
+		yamlUnmarshaler.discardUnknown = true
+	}
+}
+
 // NewYAMLUnmarshaler returns a new Unmarshaler for yaml.
 //
 // If the resolver is nil, EmptyResolver will be used.
